@@ -79,6 +79,14 @@ pub fn module(fns: Vec<(&str, Function)>) -> Module {
         imports: vec![],
     }
 }
+pub fn module_std(fns: Vec<(&str, Function)>) -> Module {
+    let mut m = module(fns);
+    m.imports = ["min", "max", "sorted", "min_by_key", "max_by_key", "sorted_by_key", "to_array", "map", "filter", "any"]
+        .iter()
+        .map(|x| format!("std.{}", x))
+        .collect();
+    m
+}
 pub fn log(v: Card) -> Card { sv("_l", native("log1", vec![v])) }
 
 /// What a corpus entry asks of the runner
@@ -439,6 +447,57 @@ pub fn corpus() -> Vec<Entry> {
     ]));
     h2.history = 6;
     v.push(h2);
+    v.push(e("stdlib_minmax_sorted", module_std(vec![
+        ("main", func(&[], vec![
+            sv("t", table()),
+            setp(int(5), rv("t"), s("x")),
+            setp(int(-2), rv("t"), s("y")),
+            setp(real(7.5), rv("t"), s("z")),
+            setp(int(3), rv("t"), int(9)),
+            sg("mn", call("min", vec![rv("t")])),
+            sg("mx", call("max", vec![rv("t")])),
+            sg("so", call("sorted", vec![rv("t")])),
+            sg("mnk", call("min_by_key", vec![rv("t"), fval("neg")])),
+            sg("sok", call("sorted_by_key", vec![rv("t"), fval("neg")])),
+            sg("e1", call("min", vec![table()])),
+            sg("e2", call("max", vec![int(4)])),
+            sg("e3", call("sorted", vec![s("str")])),
+            sg("arr", call("to_array", vec![rv("t")])),
+            sg("mp", call("map", vec![rv("t"), fval("triple")])),
+            sg("fl", call("filter", vec![rv("t"), fval("triple")])),
+            sg("an", call("any", vec![rv("t"), fval("triple")])),
+        ])),
+        ("neg", func(&["k", "v"], vec![ret(sub(int(0), rv("v")))])),
+        ("triple", func(&["i", "v", "k"], vec![ret(less(rv("v"), int(4)))])),
+    ])));
+    v.push(e("stdlib_sorted_mixed_keys", module_std(vec![
+        ("main", func(&[], vec![
+            sv("t", array(vec![int(3), real(f64::NAN), s("ab"), nil(), real(2.5), array(vec![int(1), int(2), int(3), int(4)]), int(-1), real(f64::NAN), int(9007199254740993), real(9007199254740992.0)])),
+            sg("so", call("sorted", vec![rv("t")])),
+            sg("mn", call("min", vec![rv("t")])),
+            sg("mx", call("max", vec![rv("t")])),
+        ])),
+    ])));
+    v.push(e("stdlib_key_function_fails", module_std(vec![
+        ("main", func(&[], vec![
+            sv("t", array(vec![int(3), int(1), int(2)])),
+            sg("a", int(1)),
+            sg("so", call("sorted_by_key", vec![rv("t"), fval("bad")])),
+            sg("b", int(2)),
+        ])),
+        ("bad", func(&["k", "v"], vec![if_true(eq(rv("v"), int(1)), sv("_q", native("fail0", vec![]))), ret(rv("v"))])),
+    ])));
+    v.push(e("stdlib_key_function_loops", module_std(vec![
+        ("main", func(&[], vec![
+            sv("t", array(vec![int(3), int(1), int(2)])),
+            sg("mx", call("max_by_key", vec![rv("t"), fval("slow")])),
+        ])),
+        ("slow", func(&["k", "v"], vec![
+            sv("i", int(0)),
+            while_(less(rv("i"), int(10)), sv("i", add(rv("i"), int(1)))),
+            ret(rv("v")),
+        ])),
+    ])));
     v.push(e("stdlib_to_array", module(vec![("main", func(&[], vec![
         sv("t", table()),
         setp(int(5), rv("t"), s("x")),
